@@ -253,13 +253,8 @@ theorem grid_local (f : SerF) (g : DeF) (T : List PyVal → Nat → Prop) (P Q :
     obtain ⟨hflat, hflen⟩ := gridFlatten_shape h w rows hshape
     rw [hflat] at hk
     simp only [Outcome.bind_ok] at hk
-    -- the inner Seq call re-uses the caller's idx on the one-element list [d_flat]
+    -- the inner Seq call asks for item 0 of the fresh one-element list [d_flat], whatever `i` is
     obtain ⟨l, hl, rfl, hloop⟩ := seqSer_eq_ok hk
-    have hi0 : i = 0 := by
-      rcases i with _ | i
-      · rfl
-      · simp at hl
-    subst hi0
     have hll : l = rowsFlat rows := by simpa using hl.symm
     subst hll
     obtain ⟨t', ht', hdec⟩ := seq_loop f g T P ex hloc hb (rowsFlat rows) (h * w) (by omega) hTl pre.length Q hPQ hmid
@@ -272,8 +267,8 @@ theorem grid_local (f : SerF) (g : DeF) (T : List PyVal → Nat → Prop) (P Q :
       simp only [List.take_zero, Nat.zero_add] at this
       rw [this]
       simp [hflen, gridRows_rowsFlat h w rows hshape]
-    · rw [window_one d 0 _ hv]; exact List.prefix_refl _
-    · intro _; rw [window_one d 0 _ hv]
+    · rw [window_one d i _ hv]; exact List.prefix_refl _
+    · intro _; rw [window_one d i _ hv]
   | _ => simp at hk
 
 end Cspuz.Ser
